@@ -3,7 +3,7 @@
 From Coq Require Import List NArith ZArith Bool.
 Import ListNotations.
 From Verif Require Import Base.Val C18.Fs C29.Model_C29 C29.Spec_C29 C29.Proofs_C29.
-From Verif Require Import C29.Complete_C29 C29.ViewExec_C29 C29.Aside_C29.
+From Verif Require Import C29.Complete_C29 C29.ViewExec_C29 C29.Aside_C29 C29.Upgrade_C29.
 
 (* the generic theorem: an update whose ops before and after a middle section name invisible
    paths only is old-or-new at every crash point outside that section *)
@@ -124,6 +124,27 @@ Theorem bin_install_complete :
     /\ content base s' cat (pf ++ TBZ2) [] = Some (concat chunks).
 Proof. exact bin_install_complete_proof. Qed.
 Print Assumptions bin_install_complete.
+
+(* binpkg replace under ANOTHER file name (1.0 -> 1.1, 1.0 -> 1.0-r0): the real op list is
+   bin_install_ops for the new name; no crash prefix changes any other listed tarball ... *)
+Theorem bin_install_others_untouched :
+  forall base s cat pid pf chunks cache,
+    nolinks s ->
+    forall k q, visible bin_cat_ok bin_skip base q -> is_prefix (bin_final base cat pf) q = false ->
+      lookup (run (firstn k (bin_install_ops s base cat pid pf chunks cache)) s) q = lookup s q.
+Proof. exact bin_install_others_untouched_proof. Qed.
+Print Assumptions bin_install_others_untouched.
+
+(* ... so the old version stays listed, in full, at EVERY crash prefix (never neither) — and also
+   after completion (known finding binpkg-replace-keeps-old) *)
+Theorem bin_replace_old_kept :
+  forall base s cat pid old pf chunks cache,
+    nolinks s -> bin_cat_ok cat = true -> bin_skip (old ++ TBZ2) = false -> old ++ TBZ2 <> pf ++ TBZ2 ->
+    forall k, let t := run (firstn k (bin_install_ops s base cat pid pf chunks cache)) s in
+      listed bin_cat_ok bin_skip false base t cat (old ++ TBZ2) = listed bin_cat_ok bin_skip false base s cat (old ++ TBZ2)
+      /\ content base t cat (old ++ TBZ2) [] = content base s cat (old ++ TBZ2) [].
+Proof. exact bin_replace_old_kept_proof. Qed.
+Print Assumptions bin_replace_old_kept.
 
 (* ------------------------------------------------------------------ executable view = declarative view *)
 Theorem view_exec_is_view_vdb :
